@@ -36,7 +36,7 @@ from . import transform as T
 from . import faults as F
 
 PLAN_FEATURES = ["newline", "indents", "p_blank", "p_line_comment", "p_block_comment", "p_trailing_comment",
-                 "p_trailing_ws", "p_quote", "p_parens", "p_block_annotation", "p_wide_sep", "p_body_comment",
+                 "p_trailing_ws", "p_quote", "p_parens", "p_block_annotation", "p_wide_sep", "p_body_comment", "p_desc_blank",
                  "p_desc_parens", "final_newline", "head_comment", "top_blank"]
 
 
